@@ -42,7 +42,8 @@ Tag(p, i) == p \o ToString(i)
 Input == [kind : Kinds, elems : UNION {[1..n -> Shapes] : n \in 0..MaxLen}]
 
 \* well-formed inputs: str/bytes consist of characters and only they do
-WF(x) == /\ (x.kind \in {"str", "bytes"}) <=> (\A i \in 1..Len(x.elems) : x.elems[i] = "c")
+\* (implications, not an equivalence: the empty input is well-formed for every kind)
+WF(x) == /\ (x.kind \in {"str", "bytes"}) => (\A i \in 1..Len(x.elems) : x.elems[i] = "c")
          /\ (x.kind \notin {"str", "bytes"}) => (\A i \in 1..Len(x.elems) : x.elems[i] # "c")
          /\ (x.kind \in Unordered) => (\A i \in 1..Len(x.elems) : x.elems[i] # "l")   \* lists are unhashable
          /\ Cardinality({i \in 1..Len(x.elems) : x.elems[i] = "e"}) <= 1               \* elements stay distinguishable
